@@ -89,6 +89,7 @@ func c11(p *core.Program, r *core.Report) {
 	footprintRule(p, r, "segment-coverage", [][2]string{{"xy/internal/raycrossing", "LocatePointInRing"}, {"xy", "IsOnLine"}})
 
 	crossingConventionRule(p, r, "crossing-convention")
+	pointOnLineRule(p, r, "on-line-exact-predicate")
 	planarLayoutArgsRule(p, r, "planar-layout-arguments")
 	const r3 = "location-values"
 	r.Rule(r3, "getLocation returns only the constants Interior, Boundary, Exterior (Boundary exactly when isPointOnSegment); raycrossing.LocatePointInRing returns only getLocation(); xy.LocatePointInRing is a pure delegation; xy.IsPointInRing is `LocatePointInRing(...) != location.Exterior`", 4)
@@ -104,54 +105,73 @@ func c11(p *core.Program, r *core.Report) {
 		return -99
 	}
 	ext, bnd, itr := val("Exterior"), val("Boundary"), val("Interior")
-	if gl := mustFn(p, r, r3, "xy/internal/raycrossing", "(*rayCrossingCounter).getLocation"); gl != nil {
+	if fn := mustFn(p, r, r3, "xy/internal/raycrossing", "LocatePointInRing"); fn != nil {
+		// every value LocatePointInRing can return, followed through the helpers of the package it returns the
+		// result of, is one of the three constants; Boundary only behind the on-segment flag
 		seen := map[int64]bool{}
-		ok := true
-		for _, b := range gl.Blocks {
-			for _, in := range b.Instrs {
-				if ret, isRet := in.(*ssa.Return); isRet {
-					if v, isC := eng.ConstInt(ret.Results[0]); isC {
-						seen[v] = true
-					} else {
-						ok = false
-					}
+		okConst, okBnd := true, true
+		var visit func(f *ssa.Function, v ssa.Value, ret *ssa.Return, depth int)
+		visit = func(f *ssa.Function, v ssa.Value, ret *ssa.Return, depth int) {
+			if depth > 4 {
+				okConst = false
+				return
+			}
+			switch x := v.(type) {
+			case *ssa.Const:
+				k, isC := eng.ConstInt(x)
+				if !isC {
+					okConst = false
+					return
 				}
-			}
-		}
-		// Boundary is returned on the true edge of the isPointOnSegment load
-		bOK := false
-		for _, b := range gl.Blocks {
-			ifi := eng.BlockIf(b)
-			if ifi == nil {
-				continue
-			}
-			if ld, isLd := ifi.Cond.(*ssa.UnOp); isLd && ld.Op == token.MUL {
-				if _, path := fieldRoot(ld.X); path == ".isPointOnSegment" {
-					for _, in := range b.Succs[0].Instrs {
-						if ret, isRet := in.(*ssa.Return); isRet {
-							if v, _ := eng.ConstInt(ret.Results[0]); v == bnd {
-								bOK = true
+				seen[k] = true
+				if k == bnd {
+					// the return is unreachable once the true edges of the isPointOnSegment flag are deleted
+					edges := eng.EdgeSet{}
+					for _, b := range f.Blocks {
+						ifi := eng.BlockIf(b)
+						if ifi == nil {
+							continue
+						}
+						if ld, isLd := ifi.Cond.(*ssa.UnOp); isLd && ld.Op == token.MUL {
+							if _, path := fieldRoot(ld.X); path == ".isPointOnSegment" {
+								edges[[2]int{b.Index, 0}] = true
 							}
 						}
 					}
-				}
-			}
-		}
-		r.Check(ok && len(seen) == 3 && seen[ext] && seen[bnd] && seen[itr] && bOK, r3, short(gl), p.Pos(gl.Pos()), true, "returns exactly {Interior, Boundary, Exterior}; Boundary iff isPointOnSegment", fmt.Sprintf("getLocation returns %v (Boundary under isPointOnSegment: %v)", seen, bOK))
-	}
-	if fn := mustFn(p, r, r3, "xy/internal/raycrossing", "LocatePointInRing"); fn != nil {
-		ok := true
-		for _, b := range fn.Blocks {
-			for _, in := range b.Instrs {
-				if ret, isRet := in.(*ssa.Return); isRet {
-					c, isCall := ret.Results[0].(*ssa.Call)
-					if !isCall || c.Call.StaticCallee() == nil || c.Call.StaticCallee().Name() != "getLocation" {
-						ok = false
+					if len(edges) == 0 || eng.Reachable(f.Blocks[0], edges)[ret.Block()] {
+						okBnd = false
 					}
 				}
+			case *ssa.Phi:
+				for _, e := range x.Edges {
+					visit(f, e, ret, depth+1)
+				}
+			case *ssa.Call:
+				cal := x.Call.StaticCallee()
+				if cal == nil || cal.Pkg != f.Pkg || len(cal.Blocks) == 0 {
+					okConst = false
+					return
+				}
+				for _, b := range cal.Blocks {
+					for _, in := range b.Instrs {
+						if rr, isRet := in.(*ssa.Return); isRet && len(rr.Results) == 1 {
+							visit(cal, rr.Results[0], rr, depth+1)
+						}
+					}
+				}
+			default:
+				okConst = false
 			}
 		}
-		r.Check(ok, r3, short(fn), p.Pos(fn.Pos()), true, "every return is counter.getLocation()", "LocatePointInRing returns something other than getLocation()")
+		for _, b := range fn.Blocks {
+			for _, in := range b.Instrs {
+				if ret, isRet := in.(*ssa.Return); isRet && len(ret.Results) == 1 {
+					visit(fn, ret.Results[0], ret, 0)
+				}
+			}
+		}
+		r.Check(okConst && len(seen) == 3 && seen[ext] && seen[bnd] && seen[itr], r3, short(fn)+"/values", p.Pos(fn.Pos()), true, "returns exactly {Interior, Boundary, Exterior}", fmt.Sprintf("LocatePointInRing can return %v (all constants: %v); the location is one of Interior, Boundary, Exterior", seen, okConst))
+		r.Check(okBnd, r3, short(fn)+"/boundary-iff-on-segment", p.Pos(fn.Pos()), true, "Boundary is returned only behind the on-segment flag", "Boundary can be returned without the on-segment flag being set (or the flag is no longer tested)")
 	}
 	if fn := mustFn(p, r, r3, "xy", "LocatePointInRing"); fn != nil {
 		r.Check(isDelegation(p, fn, "xy/internal/raycrossing", "LocatePointInRing"), r3, short(fn), p.Pos(fn.Pos()), false, "pure delegation", "xy.LocatePointInRing is not a pure delegation to raycrossing.LocatePointInRing")
